@@ -30,7 +30,7 @@ Definition name_in (l : list (string * string)) (r : frow) : bool :=
    the only panic source inside the body is the caller's io.Reader; CopyFile copies from an *os.File.
    Every other single-output function must be keyed on a completion flag. *)
 Definition panic_unsafe : list (string * string) :=
-  [ ("api", "CreatePDFFile"); ("pdfcpu", "WriteReader"); ("pdfcpu", "CopyFile"); ("pdfcpu", "Write") ].
+  [ ("pdfcpu", "WriteReader"); ("pdfcpu", "CopyFile"); ("pdfcpu", "Write") ].
 (* no function is unsafe when the body just returns an error *)
 Definition error_unsafe : list (string * string) := [].
 
